@@ -35,7 +35,10 @@ class TocRenderer:
             "<b>%d</b>" % 9999, pdfstyles.text_style(mode="toc_article",
                                                      text_align="right")
         )
-        width, _ = paragraph.wrap(0, pdfstyles.PRINT_HEIGHT)
+        # wrap(0, ...) just echoes the available width (0) with current reportlab,
+        # which gave the page number column no room at all: measure the text and
+        # add the default left/right cell padding (6pt each)
+        width = paragraph.minWidth() + 12
         # subtracting 30pt below is *probably* necessary b/c
         # of the table margins
         return [pdfstyles.PRINT_WIDTH - width - 30, width]
